@@ -56,13 +56,17 @@ FIXED = {
     "{yylval->ival=1;return(TOK_BOOLEAN);}": "(ABool 1)",
     "{yylval->ival=0;return(TOK_BOOLEAN);}": "(ABool 0)",
     "{yylval->sval=yytext;return(TOK_NAME);}": "AName",
-    "{yylval->fval=atof(yytext);return(TOK_FLOAT);}": "AFloat",
+    "{doublefval=atof(yytext);if((fval>DBL_MAX)||(fval<-DBL_MAX))return(TOK_ERROR);yylval->fval=fval;"
+    "return(TOK_FLOAT);}": "AFloat",
     "{intok;longlongllval=libconfig_parse_integer(yytext,&ok);if(!ok)return(TOK_ERROR);"
     "if((llval<INT_MIN)||(llval>INT_MAX)){yylval->llval=llval;return(TOK_INTEGER64);}"
     "else{yylval->ival=(int)llval;return(TOK_INTEGER);}}": "AInteger",
-    "{yylval->llval=atoll(yytext);return(TOK_INTEGER64);}": "AInteger64",
-    "{yylval->ival=strtoul(yytext,NULL,16);return(TOK_HEX);}": "AHex",
-    "{yylval->llval=libconfig_parse_hex64(yytext);return(TOK_HEX64);}": "AHex64",
+    "{intok;longlongllval=libconfig_parse_integer(yytext,&ok);if(!ok)return(TOK_ERROR);yylval->llval=llval;"
+    "return(TOK_INTEGER64);}": "AInteger64",
+    "{intok;unsignedlonglongullval=libconfig_parse_hex64(yytext,&ok);if(!ok||(ullval>0xFFFFFFFFULL))"
+    "return(TOK_ERROR);yylval->ival=(int)(unsignedint)ullval;return(TOK_HEX);}": "AHex",
+    "{intok;unsignedlonglongullval=libconfig_parse_hex64(yytext,&ok);if(!ok)return(TOK_ERROR);"
+    "yylval->llval=(longlong)ullval;return(TOK_HEX64);}": "AHex64",
     "{constchar*error=NULL;constchar*path=libconfig_scanctx_take_string(yyextra);"
     "FILE*fp=libconfig_scanctx_push_include(yyextra,(void*)YY_CURRENT_BUFFER,path,&error);__delete(path);"
     "if(fp){yyin=fp;yy_switch_to_buffer(yy_create_buffer(yyin,YY_BUF_SIZE,yyscanner),yyscanner);}"
